@@ -38,6 +38,7 @@ THEOREMS = [
     "Nix.C01.C01_source_create",
     "Nix.C01.C01_source_step",
     "Nix.C01.C01_source_pinned",
+    "Nix.C01.C01_source_methods",
     "Nix.C01.C01_empty_source",
     "Nix.C01.C01_conversion",
     "Nix.C01.C01_refused_kinds",
@@ -1332,7 +1333,7 @@ def replay_failure(ctx, fj):
 
 READY = True
 MANIFEST = {
-    "level_text": "Kernel-checked theorems (31, no Mathlib, axioms within propext/Classical.choice/Quot.sound) over a "
+    "level_text": "Kernel-checked theorems (32, no Mathlib, axioms within propext/Classical.choice/Quot.sound) over a "
                   "Lean model of nixio's array I/O logic, tied to the source by a compiler: on every run "
                   "harness/extract/datasetshape.py compiles DataSet.append (every check, comprehension, the resize, "
                   "the hyperslab write, the restore-on-failure), __getitem__/__setitem__/write_direct/len/shape/size/"
